@@ -224,8 +224,15 @@ def expected_tests(spec, opts, pyver=None):
     only = opts.get('only_level')
     all_ = bool(opts.get('all'))
     out = {}
+    pkgs = opts.get('package') or None
     for tid, ts, layer, level, m, node in iter_tests(spec):
         if not selected(mod_p, m['name']):
+            continue
+        if pkgs and not any(m['name'] == p or m['name'].startswith(p + '.')
+                            for p in pkgs):
+            # -s / --package: only what lies in one of the packages (a
+            # package given together with one of its sub-packages still
+            # selects every test once)
             continue
         if only is not None:
             if level != only:
@@ -279,6 +286,8 @@ def opts_to_argv(opts):
         argv.append('-' + 'v' * opts['verbose'])
     if opts.get('processes'):
         argv += ['-j', str(opts['processes'])]
+    for p in opts.get('package') or []:
+        argv += ['-s', p]
     if opts.get('color'):
         argv.append('--color')
     if opts.get('progress'):
